@@ -87,9 +87,12 @@ def main():
     m["property"] = prop
     m["confirmed_by_me"] = ran
     m["base_commit"] = sh("git -C /repo rev-parse --short HEAD").stdout.strip()
-    r = sh(f"{HERE}/tools/mutant_run.sh {dst}/patch.diff {prop} quick")
-    verdict = r.stdout.strip()
-    m["check_quick"] = {"rc": r.returncode, "summary": verdict[:600]}
+    if os.path.exists(os.path.join(HERE, "props", prop.lower() + ".py")):
+        r = sh(f"{HERE}/tools/mutant_run.sh {dst}/patch.diff {prop} quick")
+        verdict = r.stdout.strip()
+        m["check_quick"] = {"rc": r.returncode, "summary": verdict[:600]}
+    else:
+        verdict = "(check not built yet)"
     json.dump(m, open(os.path.join(dst, "meta.json"), "w"), indent=1)
     print(f"CONFIRMED {prop} #{n}; ./check {prop} quick on it: {verdict[:300]}")
     return 0
